@@ -334,6 +334,50 @@ class Gen:
         raise ValueError(k)
 
 
+def prepare_grid(thorough):
+    """PrepareGate on the structured vectors a completion-to-a-basis routine is sensitive to (deterministic, no PRNG):
+    basis vectors e_k (all weight on one entry, k = 0 included: 'prepare |0..0>'), negated, un-normalised; near-basis vectors
+    (weight 1 - O(1e-9) resp. 1 - O(1e-15) on one entry, tiny entries of both signs); one dominant entry (positive / negative)
+    next to small ones; uniform and alternating-sign vectors; 1-3 qubits; plain / transposed; bare, controlled, multiplexed."""
+    out = []
+    k_tr = 0
+    for n in (1, 2, 3):
+        N = 2 ** n
+        vecs = []
+        for k in sorted({0, 1, N - 1}):
+            e = [0.0] * N
+            e[k] = 1.0
+            vecs.append(e)
+            vecs.append([-3.0 * x for x in e])                      # negative, un-normalised
+            near = [0.0] * N
+            near[k] = 1.0
+            near[(k + 1) % N] = 1e-9
+            if N > 2:
+                near[(k + 2) % N] = -1e-9
+            vecs.append(near)
+            dom = [0.01 * (-1) ** j for j in range(N)]
+            dom[k] = 3.0 if k % 2 == 0 else -5.0
+            vecs.append(dom)
+        tiny = [0.0] * N
+        tiny[0], tiny[N - 1] = 1.0, -1e-15
+        vecs.append(tiny)
+        vecs.append([1.0] * N)
+        vecs.append([(-1.0) ** j for j in range(N)])
+        if not thorough:
+            vecs = vecs[:8] + vecs[-3:] if n == 3 else vecs
+        for v in vecs:
+            k_tr += 1
+            out.append({"k": "prep", "n": n, "vec": v, "tr": k_tr % 2 == 0, "q": list(range(n))})
+    # nested: controlled / multiplexed around basis-state and near-basis preparations
+    e0 = {"k": "prep", "n": 2, "vec": [1.0, 0.0, 0.0, 0.0], "tr": False, "q": [1, 2]}
+    ne = {"k": "prep", "n": 2, "vec": [1.0, 1e-9, 0.0, -1e-9], "tr": True, "q": [1, 2]}
+    e3 = {"k": "prep", "n": 2, "vec": [0.0, 0.0, 0.0, -2.0], "tr": False, "q": [1, 2]}
+    out.append({"k": "ctrl", "pat": [1], "cq": [0], "g": e0})
+    out.append({"k": "ctrl", "pat": [0], "cq": [0], "g": ne})
+    out.append({"k": "mux", "nc": 1, "cq": [0], "gs": [e0, e3]})
+    return out
+
+
 def gen_cases(ctx):
     """list of specs (sorted small first)"""
     rng = ctx.rng
@@ -377,6 +421,7 @@ def gen_cases(ctx):
             specs.append(Gen(rng, False).prep(n, list(range(n))) | {"tr": tr})
     specs.append({"k": "prep", "n": 2, "vec": [0.5, -0.25, 0.0, 0.25], "tr": False, "q": [1, 0]})
     specs.append({"k": "prep", "n": 1, "vec": [-3.0, 0.0], "tr": True, "q": [0]})
+    specs += prepare_grid(ctx.thorough)
     # random trees
     ntrees = 700 if ctx.thorough else 56
     maxw = 6 if ctx.thorough else 5
@@ -907,6 +952,7 @@ def run(ctx, pid):
                    "%d of %d instances violate it" % (ASSUME[k][1], sum(ASSUME[k])))
         ctx.count("assumption_%s_instances" % k, sum(ASSUME[k]))
     special_inputs(ctx, pid)
+    history_checks(ctx, pid)
     gcases = general_cases(ctx, pid) if pid in ("C01", "C16") else []
     for suite, cs, fn, shard in (("comp_zi", cases_zi, "bad_cases_zi", 12), ("comp_fi", cases_fi, "bad_cases_fi", 6),
                                  ("comp_general", gcases, "bad_cases_g", 40)):
@@ -917,6 +963,133 @@ def run(ctx, pid):
         for i, d in dis:
             if d.get("what") == "tree":
                 check_tree(ctx, pid, d["spec"], [], [], only_oracle=True)
+
+
+# =============================================================================== histories: operators held by reference
+def mutate_op(h, spec, m):
+    """re-parametrise the operator object IN PLACE (the gate holds it by reference).
+    m = {"scale": s} multiplies every coefficient by the real s; m = {"flip": True} negates them."""
+    f = float(m.get("scale", 1.0)) * (-1.0 if m.get("flip") else 1.0)
+    if spec["op"] == "pauli":
+        for ps in h.pstrings:
+            ps.weight = ps.weight * f
+    elif spec["op"] == "heis":
+        h.J = tuple(f * x for x in h.J)
+        h.h = tuple(f * x for x in h.h)
+    elif spec["op"] == "fermi":
+        for t in h.terms:
+            t.coeffs = t.coeffs * f
+    else:
+        raise ValueError(spec["op"])
+
+
+def history_reference(kind, method, H, t):
+    """matrix of the gate for the CURRENT operator matrix H, independent of the gate object"""
+    from scipy.linalg import sqrtm
+    if kind == "tevo":
+        w, V = np.linalg.eigh((H + H.conj().T) / 2)
+        return V @ np.diag(np.exp(-1j * t * w)) @ V.conj().T
+    S = sqrtm(np.identity(H.shape[0]) - H @ H)
+    if method == "Wx":
+        return np.block([[H, 1j * S], [1j * S, H]])
+    if method == "Wxi":
+        return np.block([[H, -1j * S], [-1j * S, H]])
+    return np.block([[H, S], [S, -H]])
+
+
+def check_history(ctx, pid, inp):
+    """gate over a by-reference operator: as_matrix -> re-parametrise the operator in place -> as_matrix again, for the
+    gate itself and for inverse() / copy() / ControlledGate made BEFORE and AFTER the change; every one of them must describe
+    the CURRENT operator (unitary; equal to the reference built from the operator's current matrix; inverse * gate = 1;
+    Hermiticity claim sound)."""
+    import qib
+    from copy import copy
+    spec = inp["spec"]
+    kind = spec["k"]
+    world = World(2)
+    try:
+        g = build(spec, world)
+        h = g.encoded_operator() if kind == "benc" else g.h
+    except Exception as e:
+        ctx.fail("history:construction-raises:" + kind, inp, "a gate", repr(e)[:200])
+        return
+    method = spec.get("method")
+    t = float(spec.get("t", 0.0))
+
+    def derived(tag):
+        return [(tag + "inverse", g.inverse(), "inv"), (tag + "copy", copy(g), "same"),
+                (tag + "controlled", qib.ControlledGate(g, 1, [1]), "ctrl"),
+                (tag + "controlled-inverse", qib.ControlledGate(g, 1, [0]).inverse(), "ctrl0inv")]
+
+    def verify(stage, objs):
+        H = dense(h.as_matrix())
+        R = history_reference(kind, method, H, t)
+        I = np.eye(R.shape[0])
+        Z = np.zeros_like(R)
+        want = {"same": R, "inv": R.conj().T, "ctrl": np.block([[I, Z], [Z, R]]), "ctrl0inv": np.block([[R.conj().T, Z], [Z, I]])}
+        for name, o, rel in objs:
+            try:
+                U = dense(o.as_matrix())
+            except Exception as e:
+                ctx.fail("history:%s:as_matrix-raises" % kind, dict(inp, stage=stage, object=name), "a matrix", repr(e)[:200])
+                continue
+            tol = 1e-8
+            if pid == "C01" and (U.shape[0] != 2 ** o.num_wires or maxerr(U @ U.conj().T, np.eye(U.shape[0])) > tol):
+                ctx.fail("history:%s:not-unitary-after-operator-update" % kind, dict(inp, stage=stage, object=name),
+                         "unitary matrix for the current operator", maxerr(U @ U.conj().T, np.eye(U.shape[0])))
+            if pid == "C02" and maxerr(U, want[rel]) > tol:
+                ctx.fail("history:%s:matrix-is-not-that-of-the-current-operator" % kind, dict(inp, stage=stage, object=name),
+                         "reference built from the operator's current matrix", maxerr(U, want[rel]))
+            if pid == "C03":
+                try:
+                    Ui = dense(o.inverse().as_matrix())
+                    if maxerr(Ui @ U, np.eye(U.shape[0])) > tol:
+                        ctx.fail("history:%s:inverse-does-not-invert-after-operator-update" % kind,
+                                 dict(inp, stage=stage, object=name), "inverse() * gate = 1", maxerr(Ui @ U, np.eye(U.shape[0])))
+                except Exception as e:
+                    ctx.fail("history:%s:inverse-raises" % kind, dict(inp, stage=stage, object=name), "a gate", repr(e)[:200])
+            if pid == "C16" and o.is_hermitian() and maxerr(U, U.conj().T) > tol:
+                ctx.fail("history:%s:claims-hermitian-after-operator-update" % kind, dict(inp, stage=stage, object=name),
+                         "U = U^dagger", maxerr(U, U.conj().T))
+
+    try:
+        before = [("gate", g, "same")] + derived("made-before:")
+        if inp.get("touch_before", True):
+            verify("fresh", before)                       # first as_matrix() of everything (fills any cache)
+        for step, m in enumerate(inp["mutations"]):
+            mutate_op(h, spec["h"], m)
+            after = derived("made-after-%d:" % step)
+            verify("after-mutation-%d" % step, before + after)
+            before = before + after
+    except Exception as e:
+        ctx.fail("history:%s:oracle-raises" % kind, inp, "history evaluates", repr(e)[:300])
+
+
+def history_inputs(ctx):
+    """deterministic skeleton + PRNG-drawn operators: every by-reference gate kind x operator kind x (cache filled before
+    the update or not) x (shrink, flip sign, shrink again)"""
+    rng = ctx.rng
+    out = []
+    for kind, methods in (("benc", ("Wx", "Wxi", "R")), ("tevo", (None,))):
+        for method in methods:
+            for opk in ("heis", "pauli", "fermi"):
+                n = 2 if opk == "heis" else rng.randint(1, 2)
+                hs = gen_op(rng, n, 1, kind == "benc", opk)
+                spec = {"k": kind, "h": hs}
+                if kind == "benc":
+                    spec.update(method=method, aux=[0])
+                else:
+                    spec["t"] = round(rng.uniform(-2, 2), 6)
+                out.append({"comp": True, "what": "history", "spec": spec, "touch_before": opk != "fermi",
+                            "mutations": [{"scale": 0.5}, {"flip": True}, {"scale": round(rng.uniform(0.2, 0.9), 3)}]})
+    return out
+
+
+def history_checks(ctx, pid):
+    for inp in history_inputs(ctx):
+        ctx.count("history_" + inp["spec"]["k"])
+        check_history(ctx, pid, inp)
+        ctx.nontriv(("history", repr(inp)[:2000]))
 
 
 # =============================================================================== C03, circuit level
@@ -1047,6 +1220,10 @@ def replay(ctx, pid, data):
         check_tree(ctx, pid, inp["spec"], [], [], only_oracle=True)
     elif inp["what"] == "circuit":
         check_circuit(ctx, inp)
+    elif inp["what"] == "history":
+        check_history(ctx, pid, inp)
+    elif inp["what"] == "circuit-history":
+        check_circuit_history(ctx, inp)
     elif inp["what"] == "general":
         import qib
         M = np.array([[complex(a, b) for a, b in row] for row in inp["mat"]])
